@@ -64,6 +64,16 @@ def run(ctx):
         fin = [b for b in vals if N.finite_d(b)]
         dist["d:" + g] = len(fin)
         lines += ["n2srt d %016x" % b for b in fin]
+    # doubles nearest to short decimal numerals m·10^e (their 17-digit text is often short again, which sends
+    # the parser down its small-mantissa / small-exponent paths): every e in -40..40, mantissas of 1-7 digits
+    import struct
+    sd = []
+    for e in range(-40, 41):
+        for m in ([1, 2, 3, 5, 7, 9, 14, 25, 99, 123, 1234567] + [rng.randrange(1, 10 ** rng.randrange(1, 8)) for _ in range(40 if ctx.thorough else 12)]):
+            sd.append(struct.unpack("<Q", struct.pack("<d", float("%de%d" % (m, e))))[0])
+            sd.append(struct.unpack("<Q", struct.pack("<d", float("%d.%de%d" % (m, rng.randrange(0, 1000), e))))[0])
+    dist["d:short-decimals-all-exponents"] = len(sd)
+    lines += ["n2srt d %016x" % b for b in sd if N.finite_d(b)]
     extra = 1000000 if ctx.thorough else 185000
     lines += ["n2srt d %016x" % b for b in (rng.getrandbits(64) for _ in range(extra)) if N.finite_d(b)]
     dist["d:uniform-extra"] = extra
